@@ -117,7 +117,7 @@ def run(ctx: Ctx):
         """idx selects rows [0, base.shape[0] // k) on axis 0 (and everything on the other axes)"""
         first = idx.args[0] if isinstance(idx, vg.S) and idx.op == "tuple" and idx.args else idx
         rest = list(idx.args[1:]) if isinstance(idx, vg.S) and idx.op == "tuple" else []
-        if not (isinstance(first, vg.S) and first.op == "slice" and vg.is_const(first.args[0], None) and vg.is_const(first.args[2], None)):
+        if not (isinstance(first, vg.S) and first.op == "slice" and vg.is_none(first.args[0]) and vg.is_none(first.args[2])):
             return False
         up = first.args[1]
         if not (isinstance(up, vg.S) and up.op == "//" and up.args[1] is k):
@@ -125,7 +125,7 @@ def run(ctx: Ctx):
         n0 = up.args[0]
         rows = (n0.op == "sub" and vg.is_const(n0.args[1], 0) and n0.args[0].op == "attr" and n0.args[0].args[1] == "shape" and n0.args[0].args[0] is base) or \
             (n0.op == "meth" and n0.args[1] == "size" and n0.args[0] is base and len(n0.args) == 3 and vg.is_const(n0.args[2], 0))
-        return rows and all(x.op == "ellipsis" or (x.op == "slice" and all(vg.is_const(y, None) for y in x.args)) for x in rest)
+        return rows and all(x.op == "ellipsis" or (x.op == "slice" and all(vg.is_none(y) for y in x.args)) for x in rest)
 
     okw = False
     if isinstance(rw, vg.S) and (nf._fn(rw) or "").endswith(":dihedral_8_augmentation") and len(rw.args) == 2:
